@@ -120,6 +120,9 @@ func (c PI) Candidates() []PI {
 	if len(c.In.Flags) > 0 {
 		add(func(n *PI) bool { n.In.Flags = nil; return true })
 	}
+	if c.Prog.Trailer != "" {
+		add(func(n *PI) bool { n.Prog.Trailer = ""; return true })
+	}
 	if c.Prog.Style != 0 {
 		add(func(n *PI) bool { n.Prog.Style = 0; return true })
 	}
